@@ -3,7 +3,9 @@ package main
 import (
 	"bytes"
 	"context"
+	"errors"
 	"fmt"
+	"io"
 	"io/fs"
 	"os"
 	"path/filepath"
@@ -91,9 +93,56 @@ func buildItems(items []wproto.Item) *gtree.Node {
 	return root
 }
 
+var errReader = errors.New("verif: injected reader failure")
+var errWriter = errors.New("verif: injected writer failure")
+
+// failReader delivers the first n bytes of s (in small reads) and then fails.
+type failReader struct {
+	s string
+	n int
+	i int
+}
+
+func (f *failReader) Read(p []byte) (int, error) {
+	if f.i >= f.n {
+		return 0, errReader
+	}
+	k := copy(p, f.s[f.i:f.n])
+	f.i += k
+	return k, nil
+}
+
+// faultWriter accepts everything until call number at.
+type faultWriter struct {
+	mu      sync.Mutex
+	buf     *bytes.Buffer
+	fault   *wproto.WFault
+	calls   int
+	refused bool
+	sizes   []int
+}
+
+func (w *faultWriter) Write(p []byte) (int, error) {
+	w.mu.Lock()
+	defer w.mu.Unlock()
+	w.calls++
+	w.sizes = append(w.sizes, len(p))
+	if w.fault != nil && w.calls >= w.fault.At {
+		w.refused = true
+		if w.fault.How == "short" && w.calls == w.fault.At {
+			n := len(p) / 2
+			w.buf.Write(p[:n])
+			return n, errWriter
+		}
+		return 0, errWriter
+	}
+	return w.buf.Write(p)
+}
+
 func handleReq(rq wproto.Req) (rp wproto.Rep) {
 	var buf bytes.Buffer
-	color.Output = &buf
+	fw := &faultWriter{buf: &buf, fault: rq.WFault}
+	color.Output = fw
 	opts := reqOpts(rq)
 	var jail string
 	if rq.Target != "" {
@@ -120,9 +169,9 @@ func handleReq(rq wproto.Req) (rp wproto.Rep) {
 			root := buildItems(rq.Items)
 			switch {
 			case rq.Op == "output" && rq.Alias:
-				return gtree.OutputProgrammably(&buf, root, opts...)
+				return gtree.OutputProgrammably(fw, root, opts...)
 			case rq.Op == "output":
-				return gtree.OutputFromRoot(&buf, root, opts...)
+				return gtree.OutputFromRoot(fw, root, opts...)
 			case rq.Op == "walk" && rq.Alias:
 				return gtree.WalkProgrammably(root, cb, opts...)
 			case rq.Op == "walk":
@@ -138,12 +187,15 @@ func handleReq(rq wproto.Req) (rp wproto.Rep) {
 			}
 			return fmt.Errorf("harness: unknown op %q", rq.Op)
 		}
-		r := strings.NewReader(rq.Doc)
+		var r io.Reader = strings.NewReader(rq.Doc)
+		if rq.ReadFail != nil {
+			r = &failReader{s: rq.Doc, n: *rq.ReadFail}
+		}
 		switch {
 		case rq.Op == "output" && rq.Alias:
-			return gtree.Output(&buf, r, opts...)
+			return gtree.Output(fw, r, opts...)
 		case rq.Op == "output":
-			return gtree.OutputFromMarkdown(&buf, r, opts...)
+			return gtree.OutputFromMarkdown(fw, r, opts...)
 		case rq.Op == "walk" && rq.Alias:
 			return gtree.Walk(r, cb, opts...)
 		case rq.Op == "walk":
@@ -160,6 +212,10 @@ func handleReq(rq wproto.Req) (rp wproto.Rep) {
 		return fmt.Errorf("harness: unknown op %q", rq.Op)
 	})
 	rp.Class, rp.Out, rp.Err = o.Class(), buf.String(), o.ErrString()
+	rp.IsReaderErr = o.Err != nil && errors.Is(o.Err, errReader)
+	fw.mu.Lock()
+	rp.WCalls, rp.WRefused, rp.WSizes = fw.calls, fw.refused, fw.sizes
+	fw.mu.Unlock()
 	if o.Panic != "" {
 		rp.Err = firstLine(o.Panic)
 	}
